@@ -544,6 +544,18 @@ func runGccall(c *Ctx) {
 				}
 			}
 			if p.End == core.EndReturn {
+				fnCalls := 0
+				for _, ev := range p.Events {
+					if ev.Kind == core.KCall && ev.Callee == nil && ev.Builtin == "" && ev.FunVal.Kind == core.VUnknown {
+						if v := identVar(ev.Call.Fun, ev.Frame); v != nil && !v.IsField() {
+							if _, isSig := v.Type().Underlying().(*types.Signature); isSig {
+								fnCalls++
+							}
+						}
+					}
+				}
+				a.note("R13a", lname+"/one-call-per-worker", l.Pos(), fnCalls != 1, "every path of a worker calls its function exactly once",
+					sprintf("a path of the worker calls its function %d times: a function handed to CallConcurrently is skipped (or run twice)", fnCalls), p)
 				a.note("R13a", lname+"/one-decrement-per-worker", l.Pos(), decs != 1, "every path of a worker decrements running exactly once", sprintf("a path of the worker performs %d decrements of running (the counter is not the int the caller samples, or a path skips/repeats it)", decs), p)
 				wps = append(wps, wp{g.litsBefore(len(p.Events), false), wrote, p})
 			}
@@ -834,6 +846,72 @@ func runGccontainer(c *Ctx) {
 		a.expect("R12", name+"/callback-in-section", 1, "the callback call in SwapValue")
 		a.expect("R12", name+"/read-modify-write-one-section", 1, "the store in SwapValue")
 	}
+	// SwapValue is ONE critical section: what it returns was decided inside it (a value re-read after
+	// the section belongs to whoever wrote last)
+	if d := c.declByName("R12", "ccontainer", "CContainer", "SwapValue"); d != nil {
+		name := core.FuncName(d.Obj)
+		c.Walk("R12", &core.Config{Follow: samePkgFollow(d.Pkg.PkgPath)}, core.Entry{Decl: d}, func(p *core.Path) {
+			if p.End != core.EndReturn {
+				return
+			}
+			n := 0
+			for _, ev := range p.Events {
+				if ev.Kind == core.KAcquire && core.LockName(ev.Lock) == lock {
+					n++
+				}
+			}
+			a.note("R12", name+"/one-atomic-section", d.Decl.Pos(), n != 1,
+				"SwapValue enters the container's critical section exactly once",
+				sprintf("a path of SwapValue enters the container's critical section %d times: the value it returns (or stores) is not the one its own read-modify-write produced", n), p)
+		})
+	}
+	// the comparison helper (the function that calls the custom equal field): two different values
+	// are declared different only after the custom equality was consulted, or when there is none
+	const equalF = "ccontainer.CContainer.equal"
+	for _, d := range declsWhere(c, "ccontainer", func(d *core.FuncDecl, n ast.Node) bool {
+		call, ok := n.(*ast.CallExpr)
+		if !ok {
+			return false
+		}
+		fv := fieldVar(call.Fun, &core.Frame{Pkg: d.Pkg})
+		return fv != nil && core.FieldName(fv) == equalF
+	}) {
+		d := d
+		name := core.FuncName(d.Obj)
+		c.Walk("R12", &core.Config{}, core.Entry{Decl: d}, func(p *core.Path) {
+			g := prepare(c, p)
+			consulted := false
+			for i, ev := range p.Events {
+				if callsField(ev, equalF) {
+					consulted = true
+				}
+				if ev.Kind != core.KReturn || ev.Frame.Parent != nil || len(ev.Results) != 1 {
+					continue
+				}
+				res := unparen(ev.Results[0])
+				tv, isConst := ev.Frame.Info().Types[res]
+				if !isConst || tv.Value == nil {
+					mentions := false
+					ast.Inspect(res, func(n ast.Node) bool {
+						if fv := fieldVarOfNode(n, ev.Frame); fv != nil && core.FieldName(fv) == equalF {
+							mentions = true
+						}
+						return true
+					})
+					a.note("R12", name+"/different-only-after-custom-equality", ev.Pos, !(mentions || consulted),
+						"a computed verdict involves the custom equality", "the comparison returns a computed verdict that does not involve the custom equal function", p)
+					continue
+				}
+				if tv.Value.ExactString() == "false" {
+					noneSet, _ := implies(g.litsBefore(i, false), eq("nil", equalF))
+					a.note("R12", name+"/different-only-after-custom-equality", ev.Pos, !(consulted || noneSet),
+						"values are declared different only after the custom equality was consulted, or when none is set",
+						"the comparison declares two values different on a path that neither consulted the custom equal function nor showed it unset: SetValue/SwapValue store and broadcast a value equal to the current one, and WaitValue/WaitValueEmpty mis-judge values the custom equality maps onto the empty value", p)
+				}
+			}
+		})
+		a.expect("R12", name+"/different-only-after-custom-equality", 1, "return false in the comparison helper")
+	}
 	for _, fn := range []string{"WaitValue", "WaitValueChange", "WaitValueEmpty"} {
 		d := c.declByName("R12", "ccontainer", "CContainer", fn)
 		if d == nil {
@@ -855,3 +933,10 @@ func runGccontainer(c *Ctx) {
 }
 
 func ev0Frame(p *core.Path) bool { return len(p.Events) > 0 }
+
+func fieldVarOfNode(n ast.Node, fr *core.Frame) *types.Var {
+	if e, ok := n.(ast.Expr); ok {
+		return fieldVar(e, fr)
+	}
+	return nil
+}
